@@ -40,7 +40,9 @@ def run(argv):
         facts = core.load_facts("dev")
         rep.deferred = True
         facts.__dict__["touched"] = set()
+        core._IN_PROGRESS.add(prop)
         mod.check(facts, rep, tier)
+        core._IN_PROGRESS.discard(prop)
         for n in facts.__dict__.get("touched", ()):
             rep.fn(n)
         if tier == "thorough" and not os.environ.get("SLX_REPO"):
